@@ -1,4 +1,4 @@
 SPECIFICATION Spec
-CONSTANTS Variant = "relative_subset" MaxLives = 1
+CONSTANTS Variant = "relative_subset" MaxLives = 1 Rich = FALSE
 INVARIANTS InvBounds InvDenominator InvSchedule InvResume InvAscentDirection InvFixedPoint InvObject
 CHECK_DEADLOCK FALSE
